@@ -74,7 +74,13 @@ def ref_duration(story):
 def ref_time(text):
     if text is None:
         return None
-    return datetime.fromisoformat(text)
+    try:
+        return datetime.fromisoformat(text)
+    except ValueError:
+        # "parseable times": the library documents dateutil as its parser, so a time only dateutil reads
+        # (zone names, unpadded fields, surrounding white space, other layouts) denotes what dateutil says
+        from dateutil.parser import parse
+        return parse(text)
 
 
 def ref_ro_start(rc):
